@@ -1018,6 +1018,14 @@ class UnicodeDammit:
         :param encoding: The name of an encoding.
         :param errors: An error handling strategy, used when calling `str`.
         """
+        if not data:
+            # Python decodes empty input without ever looking the
+            # codec up, so any name at all would "work" for a
+            # document that is empty once its byte-order mark is
+            # gone. Make sure the name is a text encoding: this
+            # raises LookupError for exactly the names that
+            # str(b"x", name) rejects.
+            "".encode(encoding)
         return str(data, encoding, errors)
 
     @property
